@@ -411,6 +411,10 @@ def run_history(ctx, spec, nodes, ops, clean: bool, stats: dict):
         if outcome == 'exc':
             btags = [f'after:{blind}'] if blind else tags
             if isinstance(exc, RecursionError):  # innermost frame of a stack overflow is arbitrary: keep it out of the key
+                if getattr(exp, 'ring', False) and 'worker-self' in btags:
+                    # the call closes a ring of placeholders that also holds a worker: the recorded RecursionError of
+                    # placeholder rings, not a worker-level self-feed that went unrefused
+                    btags = btags + ['placeholder-ring']
                 ctx.fail(spec, 'raises-other', 'RecursionError', f'{rop} raised RecursionError', btags)
             else:
                 ctx.fail_exc(spec, 'raises-other', exc, btags)
@@ -440,7 +444,16 @@ def run_history(ctx, spec, nodes, ops, clean: bool, stats: dict):
                     followed = _follow_label_link(model, real, rop, exp)
                     # the recorded finding leaves one definite state (Train port connected and registered); a refused
                     # train-with-label call that leaves anything else is a different defect and gets its own key
-                    other = ['other-residue'] if followed is None and rop['op'] == 'train' and 'label-link' in exp.tags and 'via-future' not in exp.tags else []
+                    other = []
+                    if followed is None and rop['op'] == 'train' and 'label-link' in exp.tags and 'via-future' not in exp.tags:
+                        # judged on the worker's own ports, read from the real graph (the model may be unable to follow for
+                        # reasons of its own, e.g. a placeholder whose `subscribed` view changes because w is trained now)
+                        w, (pt, pp) = rop['w'], rop['pubT']
+                        ins = real.observe(w, False)['in']
+                        edges, _ = real.edges()
+                        to_w = {(a, j, key) for a, j, x, key in edges if x == w}
+                        if not (ins == [interp.T] and to_w == {(pt, pp, interp.T)}):
+                            other = ['other-residue']
                     ctx.fail(spec, 'atomic', exp.reason, f'{rop} raised {exc!r} but changed: {_diff(before, after)}', tags + other)
                     if followed is None:
                         return None
